@@ -205,6 +205,15 @@ func init() {
 					}})
 				}
 			}
+			// size sweep (shared with C02): every n in 1..70 (quick) / 1..300 (thorough)
+			maxN := 70
+			if tier == "thorough" {
+				maxN = 300
+			}
+			for _, cfg := range []vVecCfg{{Kind: "flat", Metric: Euclidean, Dim: 2}, {Kind: "flat", Metric: Cosine, Dim: 3}, {Kind: "flat", Metric: L2Squared, Dim: 5}} {
+				cfg := cfg
+				sh = append(sh, vShard{Name: "sweep/" + strings.ReplaceAll(cfg.String(), " ", ","), Run: func(c *vCtx) { vKindSweep(c, cfg, maxN, nil) }})
+			}
 			// deep-narrow shards: depth 6 (quick) / 7 (thorough) over 2 values and 3-4 ids in any order
 			for _, metric := range []DistanceKind{Euclidean, Cosine} {
 				metric := metric
@@ -221,6 +230,13 @@ func init() {
 		Replay: func(c *vCtx, v *vViolation) bool {
 			var metric string
 			var dim, nids int
+			if i := strings.Index(v.Config, " sweep n="); i >= 0 {
+				var n int
+				fmt.Sscanf(v.Config[i:], " sweep n=%d", &n)
+				vKindSweep(c, vParseVecCfg(v.Config[:i]), n+1, nil)
+				_, ok := c.viol[v.Sig()]
+				return ok
+			}
 			if strings.HasPrefix(v.Config, "flatdeep ") {
 				fmt.Sscanf(strings.TrimPrefix(v.Config, "flatdeep "), "metric=%s dim=%d ids=%d", &metric, &dim, &nids)
 				vReplayHist(newFlatDeep(c, DistanceKind(metric), nids), v.History)
